@@ -66,6 +66,12 @@ def gen_configs(ctx):
     out.append({"servers": {"only": {"args": [], "env": None, "timeout": "__absent__", "extra": None}}, "top_extra": None})
     out.append({"servers": {"a": {"args": ARG_POOL[:8], "env": ENV_POOL[3], "timeout": 5, "extra": None},
                             "b": {"args": ARG_POOL[8:], "env": {}, "timeout": "7", "extra": None}}, "top_extra": None})
+    # the command given as a bare name: it has to be looked up through the PATH of the *configured* environment;
+    # a program of the same name sits on the host's own PATH as a decoy
+    out.append({"servers": {"pinned": {"args": ["x y"], "env": {"VF_MARK": "1"}, "timeout": 5, "extra": None, "bare": True}},
+                "top_extra": None})
+    out.append({"servers": {"a": {"args": [], "env": {}, "timeout": "__absent__", "extra": None, "bare": True},
+                            "b": {"args": ["--flag"], "env": ENV_POOL[3], "timeout": 5, "extra": None}}, "top_extra": None})
     return out
 
 
@@ -163,22 +169,35 @@ def materialise(tmp: str, cfg: Dict[str, Any]) -> Dict[str, Any]:
     servers = {}
     expect = {}
     for i, (name, spec) in enumerate(cfg["servers"].items()):
-        w = os.path.join(tmp, f"witness_{i}.py")
+        decoy = None
+        spec_env = spec["env"]
+        if spec.get("bare"):
+            bindir, hostbin = os.path.join(tmp, f"envbin_{i}"), os.path.join(tmp, "hostbin")
+            os.makedirs(bindir, exist_ok=True)
+            os.makedirs(hostbin, exist_ok=True)
+            w = os.path.join(bindir, f"vf-server-{i}")
+            decoy = os.path.join(hostbin, f"vf-server-{i}")
+            with open(decoy, "w") as f:
+                f.write(src)
+            os.chmod(decoy, 0o755)
+            spec_env = dict(spec["env"] or {}, PATH=f"{bindir}:/usr/bin:/bin")
+        else:
+            w = os.path.join(tmp, f"witness_{i}.py")
         with open(w, "w") as f:
             f.write(src)
         os.chmod(w, 0o755)
-        entry: Dict[str, Any] = {"command": w}
+        entry: Dict[str, Any] = {"command": os.path.basename(w) if spec.get("bare") else w}
         if spec["args"] != "__absent__":
             entry["args"] = spec["args"]
-        if spec["env"] is not None:
-            entry["env"] = spec["env"]
+        if spec_env is not None:
+            entry["env"] = spec_env
         if spec["timeout"] != "__absent__":
             entry["timeout"] = spec["timeout"]
         if spec.get("extra"):
             entry.update(spec["extra"])
         servers[name] = entry
         expect[name] = {"witness": w, "args": [] if spec["args"] == "__absent__" else spec["args"],
-                        "env": spec["env"], "timeout": spec["timeout"]}
+                        "env": spec_env, "timeout": spec["timeout"], "decoy": decoy}
     doc: Dict[str, Any] = {"mcpServers": servers}
     if cfg.get("top_extra"):
         doc.update(cfg["top_extra"])
@@ -201,6 +220,8 @@ def parent_env() -> Dict[str, str]:
 
 def run_entry(mode: str, cfg_path: str, names: List[str], tmp: str) -> Dict[str, Any]:
     env = parent_env()
+    if os.path.isdir(os.path.join(tmp, "hostbin")):
+        env["PATH"] = os.path.join(tmp, "hostbin") + ":" + env.get("PATH", "/usr/bin:/bin")
     if mode == "cli":
         cmd = [PY, "-B", "-m", "chuk_mcp", "--config", cfg_path, "--server", names[0]]
     else:
@@ -231,6 +252,7 @@ def one_case(cfg: Dict[str, Any], mode: str, names: List[str]) -> Dict[str, Any]
         m = materialise(tmp, cfg)
         o = run_entry(mode, m["path"], names, tmp)
         o["launches"] = {n: launches(e["witness"]) for n, e in m["expect"].items()}
+        o["decoy_launches"] = {n: launches(e["decoy"]) for n, e in m["expect"].items() if e.get("decoy")}
         o["expect"] = m["expect"]
         o["parent_env"] = {k: v for k, v in parent_env().items() if k in INHERIT}
         return o
@@ -298,6 +320,11 @@ def judge(ctx, case: Dict[str, Any], o: Dict[str, Any]) -> None:
         return
     ctx.count("entry_point_runs")
     shape = []
+    for name, dl in (o.get("decoy_launches") or {}).items():
+        ctx.count("bare_command_servers")
+        if dl:
+            ctx.violation("wrong_program_launched", f"{mode}: server {name!r} is configured as a bare command with its own PATH "
+                          f"in env; the same-named program on the host's PATH was started instead ({len(dl)} launches)", case)
     for name, exp in o["expect"].items():
         ls = o["launches"][name]
         ctx.count("witness_launches", len(ls))
